@@ -15,17 +15,20 @@ type SKnobs struct {
 	RetryTimes  int    `json:"retry_times"`
 	PackCount   int    `json:"pack_count"`
 	PackTimerMs int    `json:"pack_timer_ms"`
-	PackMemKB   int    `json:"pack_mem_kb,omitempty"` // global memory budget of the write batchers in KB (0 = the shipped 4 GB)
-	TTMs        int    `json:"tt_ms"`
-	ChannelNum  int    `json:"channel_num"`
-	MaxSteps    int    `json:"max_steps"`
-	ClockW      int    `json:"clock_w"`
-	LogDebug    bool   `json:"log_debug"`
-	Crashes     int    `json:"crashes"`
-	RangeMode   int    `json:"range_mode"`
-	PChMode     int    `json:"pch_mode,omitempty"`  // numbering of the source pchannels, see srcPCh
-	EventCap    int    `json:"event_cap,omitempty"` // capacity of the reader's API event queue (0 = the shipped 10), hook H18
-	DoneMode    int    `json:"done_mode,omitempty"` // 1: loops that find their context cancelled always stop at once; 0: seeded coin
+	// Recover (C05 / C06): after the fault-free drain every task that is Paused is resumed by the operator and the run is
+	// drained again: everything of its replication domain has to arrive (a failure, lifted, loses nothing)
+	Recover    bool `json:"recover,omitempty"`
+	PackMemKB  int  `json:"pack_mem_kb,omitempty"` // global memory budget of the write batchers in KB (0 = the shipped 4 GB)
+	TTMs       int  `json:"tt_ms"`
+	ChannelNum int  `json:"channel_num"`
+	MaxSteps   int  `json:"max_steps"`
+	ClockW     int  `json:"clock_w"`
+	LogDebug   bool `json:"log_debug"`
+	Crashes    int  `json:"crashes"`
+	RangeMode  int  `json:"range_mode"`
+	PChMode    int  `json:"pch_mode,omitempty"`  // numbering of the source pchannels, see srcPCh
+	EventCap   int  `json:"event_cap,omitempty"` // capacity of the reader's API event queue (0 = the shipped 10), hook H18
+	DoneMode   int  `json:"done_mode,omitempty"` // 1: loops that find their context cancelled always stop at once; 0: seeded coin
 }
 
 // HEvent is one step of the source Milvus: a catalog write, published messages, ticks, or an op message.
@@ -56,9 +59,9 @@ type SSpec struct {
 	// Stray (C18): the request also carries credentials of the other target kind: "sasl" a Milvus-target request with a
 	// left-over Kafka SASL block (no address), "milvus" a Kafka-target request with a stray Milvus user / password / token
 	// (no address), "both" two complete targets (must be rejected)
-	Stray    string            `json:"stray,omitempty"`
-	Kafka    bool              `json:"kafka,omitempty"`      // Kafka downstream (producer stubbed); Target is ignored
-	MapSrcDB string            `json:"map_src_db,omitempty"` // source database of the name mapping when it is not the specification's own (an invalid request)
+	Stray    string `json:"stray,omitempty"`
+	Kafka    bool   `json:"kafka,omitempty"`      // Kafka downstream (producer stubbed); Target is ignored
+	MapSrcDB string `json:"map_src_db,omitempty"` // source database of the name mapping when it is not the specification's own (an invalid request)
 }
 
 // tgt is the index of the simulated downstream Milvus, -1 for a Kafka downstream.
@@ -166,6 +169,12 @@ func GenS(rng *Rng, prop, variant, tier string) *SScript {
 		k.EventCap = 1
 		sc.Directed = "pdrop_queue"
 	}
+	// directed constellation (C05 / C06): two tasks on one downstream, and the message queue refuses a connection when the
+	// second task opens a collection that exists at its start; see the operator script below
+	cf := (prop == "C05" || prop == "C06") && rng.Pct(8)
+	if cf {
+		sc.Directed = "connfail_resume"
+	}
 	if (prop == "C05" || prop == "C06") && rng.Pct(30) {
 		k.PChMode = rng.Range(1, 2)
 	}
@@ -264,7 +273,7 @@ func GenS(rng *Rng, prop, variant, tier string) *SScript {
 	if light {
 		nPre = rng.Range(0, 1)
 	}
-	if pq {
+	if pq || cf {
 		nPre = 2
 	}
 	for i := 0; i < nPre; i++ {
@@ -451,6 +460,28 @@ func genSOps(rng *Rng, sc *SScript, prop string) {
 			// a small global memory budget: batches are closed by the memory threshold instead of the count / age thresholds
 			sc.Knobs.PackMemKB = 1
 			sc.Knobs.PackCount = 10
+		}
+		if (prop == "C05" || prop == "C06") && rng.Pct(40) {
+			sc.Knobs.Recover = true
+		}
+		if sc.Directed == "connfail_resume" {
+			// directed constellation: two tasks on one downstream (the replication entity and its channel manager outlive a
+			// pause of one of them), the message queue refuses the connection when a collection that exists at the start of
+			// the second task is opened (the task stops itself), nothing else is injected, and the recovery phase resumes it
+			sc.Ops = []SOp{
+				{K: "create", Task: "tk01", Spec: &SSpec{Target: 0, Coll: "c1", Creds: "token", UseStart: rng.Pct(50)}},
+				{K: "create", Task: "tk02", Spec: &SSpec{Target: 0, Coll: "*", Creds: "token"}},
+			}
+			sc.Faults = map[string]int{}
+			sc.MsgFaults, sc.StateFaults = nil, 0
+			// (the first task checks one connection per shard of c1 when it is created; the next checks are those of c2, the
+			// collection the second task finds at its start)
+			sc.ConnFaults = []int{rng.Range(1, 3)}
+			if len(sc.Colls) >= 2 && sc.Colls[0].Name == "c1" && sc.Colls[1].Name == "c2" {
+				sc.ConnFaults = []int{sc.Colls[0].Shard + rng.Intn(sc.Colls[1].Shard)}
+			}
+			sc.Knobs.Crashes = 0
+			sc.Knobs.Recover = true
 		}
 		if sc.Directed == "pdrop_queue" {
 			sc.Ops = []SOp{
